@@ -190,5 +190,38 @@ def mutateText (r : Rng) (t : List Char) : Rng × List Char :=
 def numberVariants : List String :=
   ["0", "1", "00", "4294967295", "4294967296", "2147483648", "2147483649", "99999999999999999999", "-1", "+1", "1.0", ""]
 
+/-- positions: random legal placements plus playouts from the start position and from `roots` -/
+def genPositions (seed n : Nat) (roots : List String) : List Rules.Pos := Id.run do
+  let mut r := Rng.ofSeed seed
+  let mut acc : List Rules.Pos := []
+  let rootPos := (startFen :: roots).filterMap fun f => (readPosition f).map (·.pos)
+  -- one third: playouts
+  let mut i := 0
+  while acc.length < n / 3 do
+    let (r1, root) := r.pick rootPos
+    let (r2, len) := r1.below 80
+    let (r3, ps, _) := playout r2 root (len + 1)
+    r := r3
+    acc := (ps.drop (ps.length / 2)).take 12 ++ acc
+    i := i + 1
+  while acc.length < n do
+    let (r1, sparse) := r.below 3
+    let (r2, p) := randomLegal r1 (if sparse == 0 then 6 else if sparse == 1 then 14 else 28)
+    r := r2
+    acc := p :: acc
+  return acc.take n
+
+def readLines (path : String) : IO (List String) := do
+  if path == "-" then return []
+  let txt ← IO.FS.readFile path
+  -- corpus roots: keep the positions that satisfy the `Legal` predicate (the repo's own test
+  -- positions include some with the side not to move in check)
+  return (txt.splitOn "\n").filter fun l =>
+    l.trimAscii.toString ≠ "" && !l.startsWith "#" &&
+      (match readPosition l with
+       | some p => Rules.legalPos p.pos
+       | none => false)
+
+
 end Driver
 end Tcheran
